@@ -837,6 +837,51 @@ C20Quote(e) ==
          \* exact-out fill (program: PartialFillError 6057) or for running off the supplied arrays (6038 / 6023)
          Sub("sdk_number_only_for_allowed_reasons", e.sdk.ok => (e.err \doteq 6057 \/ e.err \doteq 6038 \/ e.err \doteq 6023))
 
+-----------------------------------------------------------------------------
+(* Setters: a successful setter changes exactly the designated field of the designated account to the
+   given value and nothing else anywhere (beyond the listed properties: part of the specification of the
+   system's behaviour; reported under C04 "change settings").                                     *)
+OnlyKey(e, sec, key) == \A s_ \in Sections : ChangedKeys(e.diff, s_) \subseteq (IF s_ = sec THEN {key} ELSE {})
+SetField(pre, post, sec, key, field, val) ==
+  /\ key \in DOMAIN pre[sec] /\ key \in DOMAIN post[sec]
+  /\ post[sec][key] = [pre[sec][key] EXCEPT ![field] = val]
+SetterEffect(pre, e, post) ==
+  LET n == e.name a == e.args IN
+  CASE n \in {"set_fee_rate", "set_fee_rate_by_delegated_fee_authority"} ->
+         OnlyKey(e, "pool", Id(e, "whirlpool")) /\ SetField(pre, post, "pool", Id(e, "whirlpool"), "feeRate", a.rate)
+    [] n = "set_protocol_fee_rate" ->
+         OnlyKey(e, "pool", Id(e, "whirlpool")) /\ SetField(pre, post, "pool", Id(e, "whirlpool"), "protoRate", a.rate)
+    [] n = "set_default_fee_rate" ->
+         OnlyKey(e, "tier", Id(e, "fee_tier")) /\ SetField(pre, post, "tier", Id(e, "fee_tier"), "defaultFeeRate", a.rate)
+    [] n = "set_default_protocol_fee_rate" ->
+         OnlyKey(e, "cfg", Id(e, "whirlpools_config")) /\ SetField(pre, post, "cfg", Id(e, "whirlpools_config"), "defaultProtoRate", a.rate)
+    [] n = "set_fee_authority" ->
+         OnlyKey(e, "cfg", Id(e, "whirlpools_config")) /\ SetField(pre, post, "cfg", Id(e, "whirlpools_config"), "feeAuth", Id(e, "new_fee_authority"))
+    [] n = "set_collect_protocol_fees_authority" ->
+         OnlyKey(e, "cfg", Id(e, "whirlpools_config")) /\ SetField(pre, post, "cfg", Id(e, "whirlpools_config"), "collectAuth", Id(e, "new_collect_protocol_fees_authority"))
+    [] n = "set_reward_emissions_super_authority" ->
+         OnlyKey(e, "cfg", Id(e, "whirlpools_config")) /\ SetField(pre, post, "cfg", Id(e, "whirlpools_config"), "rewardSuperAuth", Id(e, "new_reward_emissions_super_authority"))
+    [] n \in {"set_reward_authority", "set_reward_authority_by_super_authority"} ->
+         OnlyKey(e, "pool", Id(e, "whirlpool")) /\ SetField(pre, post, "pool", Id(e, "whirlpool"), "rewardAuth", Id(e, "new_reward_authority"))
+    [] n = "set_default_base_fee_rate" ->
+         OnlyKey(e, "atier", Id(e, "adaptive_fee_tier")) /\ SetField(pre, post, "atier", Id(e, "adaptive_fee_tier"), "baseFeeRate", a.rate)
+    [] n = "set_delegated_fee_authority" ->
+         OnlyKey(e, "atier", Id(e, "adaptive_fee_tier")) /\ SetField(pre, post, "atier", Id(e, "adaptive_fee_tier"), "delegatedFeeAuth", Id(e, "new_delegated_fee_authority"))
+    [] n = "set_initialize_pool_authority" ->
+         OnlyKey(e, "atier", Id(e, "adaptive_fee_tier")) /\ SetField(pre, post, "atier", Id(e, "adaptive_fee_tier"), "initPoolAuth", Id(e, "new_initialize_pool_authority"))
+    [] n = "set_config_extension_authority" ->
+         OnlyKey(e, "ext", Id(e, "whirlpools_config_extension")) /\ SetField(pre, post, "ext", Id(e, "whirlpools_config_extension"), "extAuth", Id(e, "new_config_extension_authority"))
+    [] n = "set_token_badge_authority" ->
+         OnlyKey(e, "ext", Id(e, "whirlpools_config_extension")) /\ SetField(pre, post, "ext", Id(e, "whirlpools_config_extension"), "badgeAuth", Id(e, "new_token_badge_authority"))
+    [] n = "set_token_badge_attribute" ->
+         OnlyKey(e, "badge", Id(e, "token_badge")) /\ SetField(pre, post, "badge", Id(e, "token_badge"), "nonTransferablePos", a.value)
+    [] n = "set_preset_adaptive_fee_constants" ->
+         LET t == Id(e, "adaptive_fee_tier") c == a.constants IN
+         /\ OnlyKey(e, "atier", t) /\ t \in DOMAIN post.atier
+         /\ post.atier[t] = [pre.atier[t] EXCEPT !.filter = c.filter, !.decay = c.decay, !.reduction = c.reduction, !.factor = c.factor,
+                                                  !.maxAcc = c.maxAcc, !.groupSize = c.groupSize, !.majorTicks = c.majorTicks]
+    [] OTHER -> TRUE
+
 (* the per-event transition *)
 IxOK(pre, e, post) ==
   /\ Chk("C20", "sdk_quote", C20Quote(e))
@@ -848,6 +893,7 @@ IxOK(pre, e, post) ==
   /\ Chk("C17", "two_hop", C17TwoHop(pre, e, post))
   /\ IF e.name \in {"two_hop_swap", "two_hop_swap_v2"} THEN Chk("C03", "two_hop_bounds", C03TwoHop(pre, e, post)) ELSE TRUE
   /\ Chk("C04", "authorised", Guard(pre, e))
+  /\ Chk("C04", "setter_effect", SetterEffect(pre, e, post))
   /\ Chk("C15", "accounts_belong", Guard(pre, e))
   /\ Chk("C12", "anchor_equals_pinocchio", DualOK(e))
   /\ Chk("C12", "entrypoint_routing", e.routing \in {"none", "same"})
